@@ -434,6 +434,141 @@ Section Cbs.
       apply nth_error_upd_eq. exact Ha.
   Qed.
 
+  (* ---- statements generated inside a loop body (in_loop = true): the parameters are reset
+          from their source and the loop indexes are substituted; without counting loops there
+          is nothing to substitute ---- *)
+  Lemma upd_upd_same : forall A (f g h : A -> A) (l : list A) i,
+      (forall x, nth_error l i = Some x -> g (f x) = h x) -> upd i g (upd i f l) = upd i h l.
+  Proof.
+    intros A f g h l. induction l as [|x l IH]; intros [|i] H; cbn [upd]; [reflexivity|reflexivity| |].
+    - f_equal. apply H. reflexivity.
+    - f_equal. apply IH. intros y Hy. apply H. exact Hy.
+  Qed.
+
+  Lemma subst_loop_noop : forall ai s a,
+      nth_error (ns_apis s) ai = Some a ->
+      (forall ci, a_ctx a = Some ci -> exists c, nth_error (ns_apis s) ci = Some c) ->
+      ns_counters s = [] ->
+      substitute_loop_indexes tasks ai s = Ok (tt, s).
+  Proof.
+    intros ai s a Ha Hc Hn. unfold substitute_loop_indexes. unfold nbind at 1. unfold get_api at 1. rewrite Ha.
+    destruct (a_ctx a) as [ci|] eqn:E; [|reflexivity].
+    destruct (Hc ci eq_refl) as [c Hci]. unfold nbind at 1. unfold get_api at 1. rewrite Hci.
+    unfold nbind at 1. unfold nget at 1. rewrite Hn. reflexivity.
+  Qed.
+
+  Lemma on_task_started_loop : forall f ai s a,
+      ls_ok (ns_ls s) -> ns_test_ids s = true ->
+      nth_error (ns_apis s) ai = Some a -> a_in_loop a = true -> a_params a = a_src a ->
+      (forall ci, a_ctx a = Some ci -> exists c, nth_error (ns_apis s) ci = Some c) ->
+      ns_counters s = [] ->
+      on_task_started tasks env (S (S (S f))) ai s
+      = Ok (tt, notified TS (with_uuid (ITest (ns_tid s)) a) false (ts_pre ai s)).
+  Proof.
+    intros f ai s a Hls Hti Ha Hloop Hps Hctx Hcn.
+    rewrite on_task_started_S. unfold nbind at 1. unfold get_api at 1. rewrite Ha.
+    unfold nbind at 1. unfold nget at 1. rewrite Hloop.
+    unfold nbind at 1. unfold nbind at 1. unfold nbind at 1. unfold new_test_or_uuid.
+    unfold nbind at 1. unfold nget at 1. rewrite Hti.
+    unfold nbind at 1. unfold nmod at 1. unfold nret at 1.
+    unfold nbind at 1. unfold set_api at 1. unfold nmod at 1.
+    set (s1 := (s <| ns_tid := S (ns_tid s) |>) <| ns_apis := upd ai (with_uuid (ITest (ns_tid s))) (ns_apis (s <| ns_tid := S (ns_tid s) |>)) |>).
+    assert (Hs1 : s1 = ts_pre ai s) by reflexivity.
+    assert (Ha1 : nth_error (ns_apis s1) ai = Some (with_uuid (ITest (ns_tid s)) a)).
+    { rewrite Hs1. unfold ts_pre. cbn [ns_apis set].
+      change (ns_apis (s <| ns_tid := S (ns_tid s) |>)) with (ns_apis s). apply nth_error_upd_eq. exact Ha. }
+    assert (Estep : (if a_has_call a then set_api ai (with_params (a_src a)) else nret tt) s1 = Ok (tt, s1)).
+    { destruct (a_has_call a); [|reflexivity]. unfold set_api, nmod. f_equal. f_equal.
+      rewrite Hs1. unfold ts_pre.
+      change (ns_apis ((s <| ns_tid := S (ns_tid s) |>) <| ns_apis := upd ai (with_uuid (ITest (ns_tid s))) (ns_apis s) |>))
+        with (upd ai (with_uuid (ITest (ns_tid s))) (ns_apis s)).
+      rewrite (upd_upd_same _ _ _ (with_uuid (ITest (ns_tid s))) (ns_apis s) ai).
+      - destruct s; reflexivity.
+      - intros x Hx. rewrite Ha in Hx. inversion Hx; subst x. rewrite <- Hps.
+        change (a_params a) with (a_params (with_uuid (ITest (ns_tid s)) a)). apply with_params_same. }
+    rewrite Estep.
+    rewrite (subst_loop_noop ai s1 _ Ha1).
+    - rewrite Hs1. apply notify_user_frag; [exact Hls|rewrite <- Hs1; exact Ha1].
+    - intros ci Hci. cbn [with_uuid a_ctx] in Hci. destruct (Hctx ci Hci) as [c Hc].
+      rewrite Hs1. unfold ts_pre. cbn [ns_apis set]. change (ns_apis (s <| ns_tid := S (ns_tid s) |>)) with (ns_apis s).
+      destruct (Nat.eq_dec ai ci) as [->|Hne].
+      + eexists. apply nth_error_upd_eq. exact Hc.
+      + exists c. rewrite nth_error_upd_neq by exact Hne. exact Hc.
+    - rewrite Hs1. exact Hcn.
+  Qed.
+
+  (* the service callback draws a uuid4 first, even in test-id mode *)
+  Definition ss_pre_loop (ai : nat) (p : nat) (s : NS) : NS := ss_pre ai p (s <| ns_fresh := S (ns_fresh s) |>).
+
+  Lemma on_service_started_loop : forall f ai s a p,
+      ls_ok (ns_ls s) -> ns_test_ids s = true ->
+      nth_error (ns_apis s) ai = Some a -> a_in_loop a = true -> a_params a = a_src a ->
+      (forall ci, a_ctx a = Some ci -> exists c, nth_error (ns_apis s) ci = Some c) ->
+      ns_counters s = [] ->
+      dict_get ident_eqb (a_uuid a) (ns_place_dict s) = Some p ->
+      on_service_started tasks env (S (S (S f))) ai s
+      = Ok (tt, notified SS (with_uuid (ITest (ns_sid s)) a) false (ss_pre_loop ai p s)).
+  Proof.
+    intros f ai s a p Hls Hti Ha Hloop Hps Hctx Hcn Hd.
+    rewrite on_service_started_S. unfold nbind at 1. unfold get_api at 1. rewrite Ha.
+    unfold nbind at 1. unfold nget at 1. cbv zeta. rewrite Hloop, Hti.
+    unfold nbind at 1. unfold nbind at 1. unfold fresh_uuid at 1.
+    unfold nbind at 1. unfold new_test_or_uuid at 1.
+    unfold nbind at 1. unfold nget at 1.
+    change (ns_test_ids (s <| ns_fresh := S (ns_fresh s) |>)) with (ns_test_ids s). rewrite Hti.
+    unfold nbind at 1. unfold nmod at 1. unfold nret at 1.
+    unfold nbind at 1. unfold nbind at 1. unfold nget at 1.
+    set (sf := s <| ns_fresh := S (ns_fresh s) |>).
+    change (ns_place_dict (sf <| ns_sid := S (ns_sid sf) |>)) with (ns_place_dict s). rewrite Hd.
+    unfold nbind at 1. unfold nmod at 1. unfold set_api at 1. unfold nmod at 1.
+    change (ns_sid sf) with (ns_sid s).
+    set (s1 := ((sf <| ns_sid := S (ns_sid s) |>) <| ns_place_dict := _ |>) <| ns_apis := _ |>).
+    assert (Ha1 : nth_error (ns_apis s1) ai = Some (with_uuid (ITest (ns_sid s)) a)).
+    { unfold s1. cbn [ns_apis set]. apply nth_error_upd_eq. exact Ha. }
+    assert (Estep : set_api ai (with_params (a_src a)) s1 = Ok (tt, s1)).
+    { unfold set_api, nmod. f_equal. f_equal. unfold s1.
+      match goal with |- ?X <| ns_apis := upd ai ?g (ns_apis (?Y <| ns_apis := upd ai ?h ?l |>)) |> = _ =>
+        change (ns_apis (Y <| ns_apis := upd ai h l |>)) with (upd ai h l);
+        rewrite (upd_upd_same _ h g h l ai) end.
+      - destruct s; reflexivity.
+      - intros x Hx. change (ns_apis ((sf <| ns_sid := S (ns_sid s) |>) <| ns_place_dict := (ITest (ns_sid s), p) :: ns_place_dict (sf <| ns_sid := S (ns_sid s) |>) |>)) with (ns_apis s) in Hx.
+        rewrite Ha in Hx. inversion Hx; subst x. rewrite <- Hps.
+        change (a_params a) with (a_params (with_uuid (ITest (ns_sid s)) a)). apply with_params_same. }
+    unfold nbind at 1. rewrite Estep.
+    unfold nbind at 1. rewrite (subst_loop_noop ai s1 _ Ha1).
+    - unfold nbind at 1. unfold get_api at 1. rewrite Ha1.
+      unfold nmod at 1.
+      change (a_uuid (with_uuid (ITest (ns_sid s)) a)) with (ITest (ns_sid s)).
+      match goal with |- notify_user _ _ _ _ _ _ ?X = _ => assert (EX : X = ss_pre_loop ai p s) by (destruct s; reflexivity) end.
+      rewrite EX. apply notify_user_frag; [exact Hls|].
+      unfold ss_pre_loop, ss_pre. cbn [ns_apis set]. apply nth_error_upd_eq. exact Ha.
+    - intros ci Hci. cbn [with_uuid a_ctx] in Hci. destruct (Hctx ci Hci) as [c Hc].
+      unfold s1. cbn [ns_apis set].
+      destruct (Nat.eq_dec ai ci) as [->|Hne].
+      + eexists. apply nth_error_upd_eq. exact Hc.
+      + exists c. rewrite nth_error_upd_neq by exact Hne. exact Hc.
+    - exact Hcn.
+  Qed.
+
+  Lemma run_cb_TS_loop : forall f ai s a,
+      ls_ok (ns_ls s) -> ns_test_ids s = true ->
+      nth_error (ns_apis s) ai = Some a -> a_in_loop a = true -> a_params a = a_src a ->
+      (forall ci, a_ctx a = Some ci -> exists c, nth_error (ns_apis s) ci = Some c) ->
+      ns_counters s = [] ->
+      run_cb tasks env (S (S (S (S f)))) (CbTS ai) s
+      = Ok (tt, notified TS (with_uuid (ITest (ns_tid s)) a) false (ts_pre ai s)).
+  Proof. intros. rewrite run_cb_S. apply on_task_started_loop; assumption. Qed.
+
+  Lemma run_cb_SS_loop : forall f ai s a p,
+      ls_ok (ns_ls s) -> ns_test_ids s = true ->
+      nth_error (ns_apis s) ai = Some a -> a_in_loop a = true -> a_params a = a_src a ->
+      (forall ci, a_ctx a = Some ci -> exists c, nth_error (ns_apis s) ci = Some c) ->
+      ns_counters s = [] ->
+      dict_get ident_eqb (a_uuid a) (ns_place_dict s) = Some p ->
+      run_cb tasks env (S (S (S (S f)))) (CbSS ai) s
+      = Ok (tt, notified SS (with_uuid (ITest (ns_sid s)) a) false (ss_pre_loop ai p s)).
+  Proof. intros. rewrite run_cb_S. apply on_service_started_loop; assumption. Qed.
+
   (* ---- the four notification callbacks, for every sufficiently large fuel ---- *)
   Lemma run_cb_TS : forall f ai s a,
       ls_ok (ns_ls s) -> ns_test_ids s = true ->
@@ -845,6 +980,46 @@ Section CondCb.
       { unfold s1, cond_pre. destruct s; reflexivity. }
       rewrite E. exact Hev.
     - exists (S f0). intros f Hf. destruct f as [|f]; [lia|]. rewrite run_cb_S_cond.
+      unfold nbind at 1. unfold check_expression. unfold nbind at 1. unfold get_api at 1. rewrite Hc.
+      unfold nbind at 1. unfold nget at 1. unfold nbind at 1. unfold nlog at 1, nmod at 1.
+      cbn [ns_q set]. change (ns_q (s <| ns_log := _ |>)) with (ns_q s). rewrite Hdec.
+      unfold nbind at 1. unfold nmod at 1. unfold nret at 1.
+      unfold nbind at 1. unfold nmod at 1. unfold nbind at 1.
+      fold p. fold ev.
+      match goal with |- match sched_fire_event _ _ _ _ ?X with _ => _ end = _ =>
+        change X with (s1 <| ns_awaited := ns_awaited s1 ++ [ev] |>) end.
+      assert (Hx := Hf0 f ltac:(lia)).
+      match goal with |- match ?X with _ => _ end = _ => generalize (Hx : X = Ok (true, s')); generalize X end.
+      intros r Hr. rewrite Hr. reflexivity.
+  Qed.
+  Lemma run_cb_S_while : forall f e pt pf ctx,
+      run_cb tasks env (S f) (CbWhile e pt pf ctx) =
+      (b <~ check_expression env e ctx ;;
+       nmod (fun s => s <| ns_awaited := ns_awaited s ++ [EvSetPlace (if b then pt else pf)] |>) ;;~
+       sched_fire_event tasks env f (EvSetPlace (if b then pt else pf)) ;;~ nret tt)%net.
+  Proof. reflexivity. Qed.
+
+  Lemma RunCb_While : forall e pt pf ctx s c b q' s',
+      nth_error (ns_apis s) ctx = Some c ->
+      decide expected_ops (ec_orc env) e (ns_q s) = Ok (b, q') ->
+      existsb (event_eqb (EvSetPlace (if b then pt else pf))) (ns_awaited s) = false ->
+      has_place s (if b then pt else pf) = true ->
+      EvalTo tasks env (placed (if b then pt else pf) (cond_pre e (ident_nat (a_uuid c)) q' s)) s' ->
+      RunCb tasks env (CbWhile e pt pf ctx) s s'.
+  Proof.
+    intros e pt pf ctx s c b q' s' Hc Hdec Hnaw Hhas Hev.
+    set (p := if b then pt else pf) in *. set (ev := EvSetPlace p).
+    set (s1 := cond_pre e (ident_nat (a_uuid c)) q' s) in *.
+    destruct (remove_first_snoc ev (ns_awaited s) (Nat.eqb_refl p) Hnaw) as [Hrem Hex].
+    destruct (fire_event_to tasks env ev (s1 <| ns_awaited := ns_awaited s1 ++ [ev] |>) (ns_awaited s) p s') as [f0 Hf0].
+    - exact Hex.
+    - exact Hrem.
+    - reflexivity.
+    - exact Hhas.
+    - assert (E : (s1 <| ns_awaited := ns_awaited s1 ++ [ev] |>) <| ns_awaited := ns_awaited s |> = s1).
+      { unfold s1, cond_pre. destruct s; reflexivity. }
+      rewrite E. exact Hev.
+    - exists (S f0). intros f Hf. destruct f as [|f]; [lia|]. rewrite run_cb_S_while.
       unfold nbind at 1. unfold check_expression. unfold nbind at 1. unfold get_api at 1. rewrite Hc.
       unfold nbind at 1. unfold nget at 1. unfold nbind at 1. unfold nlog at 1, nmod at 1.
       cbn [ns_q set]. change (ns_q (s <| ns_log := _ |>)) with (ns_q s). rewrite Hdec.
